@@ -251,7 +251,7 @@ inline void sweep_C11(World& w, const WSnap& s, Sink& out, C11Stats& st) {
 // trailing-space clause: after a successful naming call the element is stored and found under the trimmed name
 inline void tr_C11(const WSnap&, const CallInfo& ci, Outcome oc, const WSnap& post, World& w, Sink& out) {
     if (oc != OK || !(ci.kind == K_POINT_NAME || ci.kind == K_ANALOG_NAME)) return;
-    std::string nm = ci.name; ezc3d::removeTrailingSpaces(nm); bool padded = nm != ci.name;
+    std::string nm = ci.name; vf::trimSpaces(nm); bool padded = nm != ci.name;
     const char* grp = ci.kind == K_POINT_NAME ? "POINT" : "ANALOG";
     std::vector<std::string> labels = pStrs(post.o, grp, "LABELS");
     if (!has(labels, nm)) V(out, "C11", std::string("trimmed_name_not_in_labels/") + grp + (padded ? "/padded" : "/plain"), "'" + ci.name + "' not found as '" + nm + "' in " + grp + ":LABELS");
